@@ -68,7 +68,7 @@ def check_window(agg, h, kind, nkeys, form, keys, vals, menu_name):
         if not all(gs.value_close(a, b) for a, b in zip(got, want)):
             same_in_group = all(repr(got[i]) == repr(got[rows[0]]) for _, rows in groups for i in rows)
             sym = f"wrong-{fn}-values" if same_in_group else f"rows-of-one-group-differ-{fn}"
-            if menu_name in ("twice", "two-unnamed", "sum-mean-unnamed", "two-cols"):
+            if menu_name in ("twice", "two-unnamed", "sum-mean-unnamed", "two-cols", "two-same-name", "lshift-built"):
                 sym += "-" + menu_name
             agg.violation(V(f"window.{form}.{fn}", sym, case, {"fn": fn, "source": src, "values": want}, got, py))
             ok = False
@@ -125,8 +125,9 @@ def check(ctx):
     from mc import hashseeds
     units = gs.plan_units(ctx.thorough)
     units += [("hist", k, f, METHOD, ctx.pick(2, 3)) for k in ("str", "intc") for f in ("name", "column")]
+    units += [("hist", "str", f, METHOD, 2, "recycle") for f in (("name", "column") if ctx.thorough else ("name",))]
     if not ctx.thorough:
-        units.append(("hist", "str", "name", METHOD, 3))
+        units += [("hist", "str", "name", METHOD, 3, "fresh", p) for p in ("cell", "view", "replace", "cell2", "view2")]
     agg = hashseeds.run(ctx, "props.c13", units)
     agg.notes["bound"] = "rows<=4 (1 key) / <=3 (2 keys) quick; <=5 / <=4 / <=2 (3 keys) thorough"
     agg.notes["exhaustive"] = True
